@@ -1,11 +1,15 @@
 import SkyllhModel.Proto
 import SkyllhModel.Model.SigGen
+import SkyllhModel.Model.SigGenR7
 open Proto SigGen
 
 /-  requests (floats as IEEE bit patterns, lists comma separated, `-` = empty):
       choice <right01> <p> <u>                       -> index
       dist   <right01> <mean> <w> <us>               -> n0,n1,…;used | ERR      (code after the fix)
       disto  <right01> <mean> <w> <us>               -> same for the pre-fix code
+      disth  <right01> <mean> <w> <us>               -> same with the mask n>0 taken once before the removal loop (NOT the code)
+      mgen   <poisson01> <mean argument> <poisson draw> <w> <us> <number of per-dataset generators>
+                                                     -> n;key=count,…;used | ERR   (multiGenerate: entry, distribute, aggregate)
       band   <x> <w> <L> <U>                         -> min,max
       reloc  <srcRa> <srcDec> <tRa> <tDec> <rRa> <rDec> -> ra,dec,cosSep(src,relocated),cosSep(true,reco)
     stateful (one analysis set-up at a time):
@@ -77,6 +81,14 @@ def step (s : St) (line : String) : St × String :=
       (s, fDist (distribute (pB r) rintF (pI mean) (Float.ofInt (pI mean)) (pList pF w) (pList pF us)))
   | ["disto", r, mean, w, us] =>
       (s, fDist (distributeOrig (pB r) rintF (pI mean) (Float.ofInt (pI mean)) (pList pF w) (pList pF us)))
+  | ["disth", r, mean, w, us] =>
+      (s, fDist (distributeHoisted (pB r) rintF (pI mean) (Float.ofInt (pI mean)) (pList pF w) (pList pF us)))
+  | ["mgen", po, ma, pd, w, us, k] =>
+      let gens : List DsGen := (List.range (pN k)).map fun j c =>
+        if c < 0 then none else some (c.toNat, [(j, c.toNat)])
+      match multiGenerate true rintF truncF Float.ofInt (pB po) (pF ma) (pI pd) (pList pF w) (pList pF us) gens with
+      | none => (s, "ERR")
+      | some (n, d, used) => (s, s!"{n};{fListD (fun kv => s!"{kv.1}={kv.2}") d};{used}")
   | ["band", x, w, l, u] =>
       let b := band (pF x) (pF w) (pF l) (pF u)
       (s, s!"{fF b.1},{fF b.2}")
